@@ -73,6 +73,14 @@ NEEDS = {
  "C10d": "(helper: Circuit.add redefinition as input/constant removes the node first) a circuit whose gates were inserted before their input/constant fan-ins",
  "C11d": "(helper: utils.int_to_bin returning () for width 0) props.sensitivity on a functionally constant node with exactly one startpoint",
  "C16d": "(helper: Circuit.remove cascading from a 'pin' recognised by name only) a dead ordinary gate whose name sits under a blackbox instance's prefix (ff0.q_n)",
+ "C01e": "THRESHOLD: xor/xnor gates with fan-in >= 7 (7, 11, 13-15, ...): balanced pairwise reduction drops a trailing partial block",
+ "C05e": "",
+ "C07e": "THRESHOLD: the 14th add(name, uid=True) of one base name (name, name_0..name_10 and name_70 exist)",
+ "C08e": "THRESHOLD: >= 10 startpoints given to approx_model_count (sampling set written in chunks of 10 that carry 9 variables each)",
+ "C09e": "THRESHOLD: n >= 11 unroll iterations (io_map lists sorted as strings: _0, _1, _10, _2, ...)",
+ "C10e": "THRESHOLD: gates with fan-in >= 9 that is not a multiple of 8 (companions OR-ed in groups of 8, leftover dropped)",
+ "C11e": "THRESHOLD: >= 7 startpoints in the cone (popcount's in-place ripple adder loses the n&carry term, first reachable at width 7)",
+ "C17e": "THRESHOLD: >= 11 nested supergate levels (levels sorted as strings: '10:..' < '1:..')",
  "C18d": "(helper: Circuit.disconnect testing `u in us` with a single name, i.e. a substring test) a cut feedback node whose name contains the name of another driver of one of its loads (n12 / n1)",
  "C19c": "influence/avg_sensitivity with supergates=True and a peer failure in the middle (solver raises, pysat unimportable, approxmc missing or exit 1)",
  "C19": "tx.subcircuit asked for ALL nodes of a blackbox-free circuit (directly or through sensitization_transform / influence with an endpoint whose cone is the whole circuit), then any edit or the internal set_output",
@@ -103,6 +111,8 @@ def main():
         prop = sid[:3]
         if sid.endswith("b"):
             src2 = " (round 2: told which round-1 change not to repeat)"
+        elif sid.endswith("e"):
+            src2 = " (round 5: asked for a change that shows only above a size threshold)"
         elif sid.endswith("d"):
             src2 = " (round 4: asked to change a shared low-level helper, not the function the property names)"
         elif sid.endswith("c"):
